@@ -171,6 +171,7 @@ inline usize hash(const Key& k)
   case 1: return 7;
   case 2: return (usize)k.v % 2;
   case 3: return ~(usize)k.v;
+  case 6: return hash((const void*)(usize)k.v);      // the library's pointer hash, the key number taken as an address
   default: return (usize)k.v / 2;
   }
 }
